@@ -212,6 +212,15 @@ def schema_error_key(err: BaseException, xsd_text: str) -> str:
     if m:
         esc = m.group(1).replace("\\\\", "\\")
         return f"pattern/escape-not-in-xsd-grammar:{esc}"
+    if "bad character range" in msg and any(
+        has_escaped_range_start(v) for v in pattern_values(xsd_text)
+    ):
+        # ``[\t-"]``: a range whose start is a single-character escape is an seRange of
+        # the XSD grammar, but elementpath compares the letter after the backslash
+        # (libxml2 compiles such a range and then mismatches it): not the schema's fault
+        return "validator-limitation/range-starts-with-an-escape"
+    if "overlap and are in the same" in msg:
+        return "content-model/overlapping-elements-in-one-choice-group"
     if "unexpected meta character '?'" in msg and any(
         lazy_quantifier_scan(v) for v in pattern_values(xsd_text)
     ):
@@ -882,6 +891,55 @@ def real_translate(pattern: str) -> Optional[str]:
 _METACHARS = set(".^$*+?()[]{}|\\-")
 
 
+def mentions_non_xml_character(pattern: str) -> bool:
+    """
+    Python's own parse of the pattern names a character (literal or range end) that is not
+    an XML 1.0 ``Char``: such a pattern cannot be written into any schema document, so a
+    refusal of the xsd target is the correct outcome.
+    """
+    ir = rg.to_ir(pattern)
+    if ir is None:
+        return False
+
+    def bad(cp: int) -> bool:
+        return not is_xml_text(chr(cp)) if not rg.is_surrogate(cp) else True
+
+    def walk(seq: list) -> bool:
+        for node in seq:
+            tag = node[0]
+            if tag == "lit" and bad(node[1]):
+                return True
+            if tag == "set" and any(bad(lo) or bad(hi) for lo, hi in node[2]):
+                return True
+            if tag == "alt" and any(walk(alt) for alt in node[1]):
+                return True
+            if tag == "rep" and walk(node[3]):
+                return True
+        return False
+
+    return walk(ir)
+
+
+def confirmed_cause_of_refusal(pattern: str) -> Optional[str]:
+    """
+    ``cause_of(pattern)`` if the real translation fails on the pattern but succeeds once
+    the ``\\xHH`` spellings are replaced by a harmless letter; None otherwise.
+    """
+    cause = cause_of(pattern)
+    if cause is None or real_translate(pattern) is not None:
+        return None
+    toks = rg.tokens_of(pattern)
+    respelt = []
+    for i, tok in enumerate(toks):
+        if len(tok) == 4 and tok.startswith("\\x") and chr(int(tok[2:], 16)) in _METACHARS:
+            respelt.append("a")
+        elif tok == "x" and i >= 1 and toks[i - 1] == "\\\\":
+            respelt.append("y")
+        else:
+            respelt.append(tok)
+    return cause if real_translate("".join(respelt)) is not None else None
+
+
 def cause_of(minimal: str) -> Optional[str]:
     """Name the construct of a 1-minimal pattern whose translation disagrees."""
     toks = rg.tokens_of(minimal)
@@ -1321,3 +1379,61 @@ def warm_up() -> None:
         run.cleanup()
     gc.collect()
     gc.freeze()
+
+
+# ---------------------------------------------------------------------------
+# known limits of the validators (so that they are never blamed on the schema)
+# ---------------------------------------------------------------------------
+def has_escaped_range_start(value: str) -> bool:
+    r"""
+    ``[\\-a]``, ``[\t-"]``: a range that *starts* with a single-character escape.
+
+    The XSD grammar allows it (``seRange ::= charOrEsc '-' charOrEsc``), but elementpath
+    (xmlschema) and libxml2 both misread such a range (measured: ``[\\-a]`` rejects ``^``,
+    ``[\t-"]`` is refused or mismatched), so verdicts on such facets are not used.
+    """
+    i = 0
+    in_set = False
+    while i < len(value):
+        ch = value[i]
+        if not in_set:
+            if ch == "\\":
+                i += 2
+                continue
+            if ch == "[":
+                in_set = True
+                i += 1
+                if value[i: i + 1] == "^":
+                    i += 1
+                continue
+            i += 1
+            continue
+        if ch == "]":
+            in_set = False
+            i += 1
+            continue
+        if ch == "\\":
+            if value[i + 2: i + 3] == "-" and value[i + 3: i + 4] not in ("]", ""):
+                return True
+            i += 2
+            continue
+        i += 1
+    return False
+
+
+def xmllint_verdict(xsd_text: str, document: str) -> Optional[bool]:
+    """libxml2's verdict on one document (None: unavailable / schema refused)."""
+    directory = env.new_dir("lint")
+    try:
+        xsd_path = directory / "schema.xsd"
+        doc_path = directory / "doc.xml"
+        xsd_path.write_text(xsd_text, encoding="utf-8")
+        doc_path.write_text(document, encoding="utf-8")
+        got = xmllint_schema(str(xsd_path), [str(doc_path)], timeout=30.0)
+        if got is None or not got["schema_ok"]:
+            return None
+        return got["valid"].get(str(doc_path))
+    finally:
+        import shutil
+
+        shutil.rmtree(directory, ignore_errors=True)
